@@ -41,7 +41,10 @@ def gen_case(rng, binary):
         ap[rng.randrange(k)] = b"other.patch"
         w["applied"] = b"\n".join(ap) + b"\n"
     elif kind == "goal-unknown":
-        cfg["goal"] = ("U", b"nosuch.patch")
+        nm = rng.choice(names)
+        # also names that merely end with, start with or contain a series entry: only the exact entry is a goal
+        cfg["goal"] = ("U", rng.choice([b"nosuch.patch", b"nosuch.patch", b"elsewhere/" + nm, b"/nonexistent/dir/" + nm, nm + b"~",
+                                        nm + b"/x", b"x" + nm]))
     elif kind == "goal-unknown-all-applied":
         w["applied"] = b"\n".join(names) + b"\n"
         cfg["goal"] = ("U", rng.choice([b"nosuch.patch", names[0]]))
